@@ -417,6 +417,16 @@ func runC19(p *load.Program, r *core.Report) {
 		}
 	}
 
+	// ---- W7 (= C02.D10 for Forward) a dead worker is recognised by the alive predicate, so that the
+	// dispatcher sees ErrProcessTerminated and replaces it
+	if a, problems := getAnchors(p); len(problems) == 0 {
+		sub := core.NewReport("C19")
+		pushes, _, _ := findMailboxPushes(a, sub)
+		aliveGuard(a, r, "C19.W7 dead-worker-recognised", "C19.W7", 1, pushes, func(f *ssa.Function) bool { return f.Name() == "Forward" })
+	} else {
+		r.Unk("C19.W7 dead-worker-recognised", "C19.W7|anchors", "", "", "anchors resolve", strings.Join(problems, "; "))
+	}
+
 	// ---- W6 (= C07.Q6) a dispatched message is handed to one worker only
 	poolSingleHandover(p, r, "C19.W6 handed-over-once", fwd)
 
